@@ -136,6 +136,8 @@ def gen(rng, tier):
             "dialect_given": rng.choice([None, None, None, True, "no_order"]),
             # the reading session starts with a merge_all() that fails part-way on this handle
             "failed_merge_all_first": {"nth": rng.randint(1, 12), "mode": rng.choice(["error", "cancel", "locked"])} if rng.random() < 0.15 else None,
+            # a delete() whose iterable fails after k items ran on the handle before the reads (its DELETEs stay uncommitted)
+            "failed_delete_first": {"k": rng.choice([1, 1, 2])} if rng.random() < 0.2 else None,
             "open_kw": rng.choice([{}, {}, {"keep_order": True}, {"sort_attribute_values": True},
                                    {"keep_order": True, "sort_attribute_values": True}])}
     r = rng.random()
@@ -286,6 +288,18 @@ def run(case):
                 # merge_all is a write: what it stored before failing (or in full) is the content the reads must leave alone
                 d0 = file_digest(path)
                 l0 = logical(raw_dump(path))
+            fd = case.get("failed_delete_first")
+            if fd and not fm:
+                rows = (raw_dump(path, tables=("features",)).get("features") or [])[:fd["k"]]
+                if rows:
+                    rdl = call(n, {"op": "delete", "h": "h", "ids": [r_[1] for r_ in rows], "form": "gen_raise", "kw": {"make_backup": False}})
+                    if not rdl["ok"] and rdl["exc"] == "SourceError":
+                        probes["reads_after_failed_delete_on_same_handle"] = 1
+                    st0 = call(n, {"op": "conn_state", "h": "h"})
+                    tolerate_txn = bool(st0["ok"] and st0["in_transaction"])  # left open by the failed WRITE call
+                    # what the failed delete left in the file (nothing, on this tree) is what the reads must leave alone
+                    d0 = file_digest(path)
+                    l0 = logical(raw_dump(path))
             for j, rd in enumerate(case["reads"]):
                 if j == case.get("gc_at"):
                     call(n, {"op": "gc"})
